@@ -25,7 +25,7 @@ CLAIMED = {
 }
 NA = {
  'C11': 'attempted and out of reach: RadioTap::RadioTap() (six in-place vector insertions through Utils::RadioTapWriter) alone gets no verdict from CBMC in 300 s / 12 GB, and the from-buffer parser is only decided up to 3 option bytes (C01); the inductive setter step of DESIGN 5/C11 therefore cannot be discharged on this image',
- 'C10': 'not decided and not attempted beyond reading the code: the section getters and add_* editors work on std::string / std::list<record> built from a symbolic-length byte walk, and DNS(buffer) itself is only decided up to 14 bytes (C01); no claim is made',
+ 'C10': 'attempted (props/C10.py, shim/c10.cpp are kept, not registered): the smallest editing program - three records with concrete names and data, symbolic ttl / id, inserted in or out of section order, getters, serialize, re-parse - gets no verdict from CBMC in 600 s (std::string / std::vector<uint8_t> splicing and the compression-pointer walk); DNS(buffer) itself is only decided up to 14 bytes (C01). The sanitized real build of that harness, which the engine runs for translation validation, aborts with an AddressSanitizer report on the two-authority-records-then-add_answer program, which is the defect the property text describes; that is a concrete run, not a verdict of this technique, so no claim is made',
  'C17': 'file round-trip and BPF filter semantics are libpcap + file-system behaviour (FFI / I/O); once they are stubbed nothing libtins-authored remains except the exception filter of the capture loop',
 }
 PENDING = 'not decided by the committed machinery yet (see DESIGN.md for the planned encoding); no claim is made'
